@@ -223,6 +223,14 @@ def framing_projection(with_dump=False, with_status=False):
     return pj
 
 
+class HarnessCrash(Exception):
+    """the harness process itself died: reported, with the trace, as 'no longer shown to hold'"""
+    def __init__(self, suite, outdir, rc, out):
+        self.suite, self.outdir, self.rc, self.out = suite, outdir, rc, out
+        tr = os.path.join(outdir, "trace.txt")
+        self.lines = read_lines(tr) if os.path.exists(tr) else []
+
+
 class HarnessHang(Exception):
     """the implementation did not return: the trace holds every line up to the one that hangs"""
     def __init__(self, suite, outdir, timeout):
@@ -247,7 +255,7 @@ def run_harness(suite, outdir, args, timeout=3000):
     except subprocess.TimeoutExpired:
         raise HarnessHang(suite, outdir, timeout)
     if rc != 0:
-        raise RuntimeError(f"harness {suite} failed rc={rc}: {out[-2000:]}")
+        raise HarnessCrash(suite, outdir, rc, out)
     rcm = run_model(os.path.join(outdir, "ops.txt"), os.path.join(outdir, "model.txt"))
     if rcm != 0:
         raise RuntimeError(f"model driver failed rc={rcm}")
